@@ -948,7 +948,7 @@ func (st *fstate) transfer(ins ssa.Instruction) {
 		if _, isMap := x.X.Type().Underlying().(*types.Map); !isMap {
 			return
 		}
-		st.noteAccess(x, st.l(x.X), false, "lookup "+x.X.Name())
+		st.noteAccess(x, st.l(x.X), false, "lookup "+describeAddr(x.X))
 		vt := x.Type()
 		if x.CommaOk {
 			vt = x.Type().(*types.Tuple).At(0).Type()
@@ -962,7 +962,7 @@ func (st *fstate) transfer(ins ssa.Instruction) {
 		}
 	case *ssa.Range:
 		if _, isMap := x.X.Type().Underlying().(*types.Map); isMap {
-			st.noteAccess(x, st.l(x.X), false, "range "+x.X.Name())
+			st.noteAccess(x, st.l(x.X), false, "range "+describeAddr(x.X))
 			st.uL(x, st.l(x.X))
 			st.uR(x, st.r(x.X))
 		}
@@ -982,7 +982,7 @@ func (st *fstate) transfer(ins ssa.Instruction) {
 	case *ssa.Store:
 		st.store(x, x.Addr, x.Val, "store")
 	case *ssa.MapUpdate:
-		st.noteAccess(x, st.l(x.Map), true, "map update "+x.Map.Name())
+		st.noteAccess(x, st.l(x.Map), true, "map update "+describeAddr(x.Map))
 		st.writeTo(x, st.l(x.Map), "mapupdate", nil, describeInstr(x))
 		for _, v := range []ssa.Value{x.Key, x.Value} {
 			if _, isC := v.(*ssa.Const); !isC && HasRef(v.Type()) {
